@@ -637,15 +637,26 @@ pub fn run(cfg: &Cfg) -> i32 {
         let set = c["set"].as_u64().unwrap_or(0) as usize;
         let threads = c["threads"].as_u64().unwrap_or(1) as u32;
         let free = c["free_slots"].as_u64().map(|x| x as usize);
-        let r = match c["kind"].as_str().unwrap_or("bdd") {
-            "bdd" => point_isolated::<BddK>(&s, set, threads, free),
-            "bcdd" => point_isolated::<BcddK>(&s, set, threads, free),
-            _ => point_isolated::<ZbddK>(&s, set, threads, free),
-        };
-        let r = r.and_then(|o| match o.msg {
-            Some(m) if m != "skip" => Err(m),
-            _ => Ok(()),
-        });
+        // with several workers the failing allocation depends on the schedule: several attempts
+        let attempts = if threads > 1 { 8 } else { 1 };
+        let mut r = Ok(());
+        for _ in 0..attempts {
+            let x = match c["kind"].as_str().unwrap_or("bdd") {
+                "bdd" => point_isolated::<BddK>(&s, set, threads, free),
+                "bcdd" => point_isolated::<BcddK>(&s, set, threads, free),
+                _ => point_isolated::<ZbddK>(&s, set, threads, free),
+            };
+            r = x.and_then(|o| match o.msg {
+                Some(m) if m != "skip" => Err(m),
+                _ => Ok(()),
+            });
+            // an open known finding at this point does not end the search for the recorded one
+            if let Err(m) = &r {
+                if !known("C14", &signature::<BddK>(&s, m, threads)) {
+                    break;
+                }
+            }
+        }
         return match r {
             Ok(_) => {
                 println!("replay: case passes");
